@@ -526,3 +526,24 @@ pub fn par_cases<T: Sync, F: Fn(&mut Monitor, u64, &T) + Sync>(m: &mut Monitor, 
         );
     m.absorb(merged);
 }
+
+/// Run library code that must not panic; a panic is returned as Err(message) instead of
+/// tearing down the worker (the default panic message is suppressed).
+pub fn no_panic<T>(f: impl FnOnce() -> T) -> Result<T, String> {
+    use std::sync::Once;
+    static HOOK: Once = Once::new();
+    HOOK.call_once(|| {
+        let default = std::panic::take_hook();
+        std::panic::set_hook(Box::new(move |info| {
+            if std::env::var("FV_SHOW_PANICS").is_ok() {
+                default(info)
+            }
+        }));
+    });
+    std::panic::catch_unwind(std::panic::AssertUnwindSafe(f)).map_err(|e| {
+        e.downcast_ref::<String>()
+            .cloned()
+            .or_else(|| e.downcast_ref::<&str>().map(|s| s.to_string()))
+            .unwrap_or_else(|| "panic".to_string())
+    })
+}
